@@ -119,7 +119,7 @@ type Collection interface {
 // coordinates are comparable.
 // BasePositionOf will panic if the feature chain is deeper than 1000 links.
 func BasePositionOf(f Feature, position int) (int, Feature) {
-	for n := 0; n < 1000; n++ {
+	for n := 0; n <= 1000; n++ {
 		position += f.Start()
 		if f.Location() != nil {
 			f = f.Location()
@@ -135,7 +135,7 @@ func BasePositionOf(f Feature, position int) (int, Feature) {
 // indicating whether f can be located relative to ref.
 // PositionWithin will panic if the feature chain is deeper than 1000 links.
 func PositionWithin(f, ref Feature, position int) (pos int, ok bool) {
-	for n := 0; n < 1000; n++ {
+	for n := 0; n <= 1000; n++ {
 		if f == ref {
 			return position, f != nil
 		}
@@ -159,7 +159,7 @@ func PositionWithin(f, ref Feature, position int) (pos int, ok bool) {
 func BaseOrientationOf(f Feature) (ori Orientation, ref Feature) {
 	o, ok := f.(Orienter)
 	if !ok || o.Orientation() == NotOriented {
-		for n := 0; n < 1000; n++ {
+		for n := 0; n <= 1000; n++ {
 			if o, ok = f.Location().(Orienter); ok && o.Orientation() != NotOriented {
 				return NotOriented, f.Location()
 			}
@@ -172,7 +172,7 @@ func BaseOrientationOf(f Feature) (ori Orientation, ref Feature) {
 	}
 
 	ori = Forward
-	for n := 0; n < 1000; n++ {
+	for n := 0; n <= 1000; n++ {
 		ori *= o.Orientation()
 		if o, ok = f.Location().(Orienter); ok && o.Orientation() != NotOriented {
 			f = f.Location()
@@ -195,7 +195,7 @@ func OrientationWithin(f, ref Feature) Orientation {
 		return NotOriented
 	}
 	ori := Forward
-	for n := 0; n < 1000; n++ {
+	for n := 0; n <= 1001; n++ {
 		o, ok := f.(Orienter)
 		if !ok {
 			return NotOriented
